@@ -63,10 +63,13 @@ HTTP_M = ['CONNECT', 'DELETE', 'GET', 'HEAD', 'OPTIONS', 'PATCH', 'POST', 'PUT',
 WEBDAV_M = ['CHECKIN', 'CHECKOUT', 'COPY', 'LOCK', 'MKCOL', 'MOVE', 'PROPFIND', 'PROPPATCH', 'REPORT',
             'UNCHECKIN', 'UNLOCK', 'UPDATE', 'VERSION-CONTROL']
 META = 'WEBSOCKET'
-KNOWN_M = frozenset(HTTP_M + WEBDAV_M)  # the 22 real methods
-PLAIN_M = [m for m in HTTP_M + WEBDAV_M if m != 'OPTIONS']  # 21
+# documented: extra methods may be configured for the process through the FALCON_CUSTOM_HTTP_METHODS environment variable
+# (read when falcon is imported); they then behave like any other method: dispatched to on_<method>, listed in Allow
+CUSTOM_M = sorted(set(m.strip().upper() for m in os.environ.get('FALCON_CUSTOM_HTTP_METHODS', '').split(',') if m.strip()))
+KNOWN_M = frozenset(HTTP_M + WEBDAV_M + CUSTOM_M)  # the 22 real methods (+ the configured ones)
+PLAIN_M = [m for m in HTTP_M + WEBDAV_M + CUSTOM_M if m != 'OPTIONS']  # 21
 UNKNOWN = 'FROB'
-REQ_METHODS = HTTP_M + WEBDAV_M + [META, UNKNOWN]
+REQ_METHODS = HTTP_M + WEBDAV_M + CUSTOM_M + [META, UNKNOWN]
 
 TEMPLATES = ['/', '/a', '/a/{id:int}', '/a/{id:int}/f.txt', '/s/{x}', '/s/f.txt', '/b/{x}-{y}', '/{top}']
 
@@ -628,6 +631,16 @@ class Subsets(_Base):
                     yield {'sbs': True, 'ops': [{'k': 'sink', 'p': 0}, dict(route, falsy=True)], 'reqs': reqs}
                 if bits % 7 == 3:
                     yield {'sbs': True, 'ops': [{'k': 'sink', 'p': 0}, route], 'reqs': reqs, 'reraise': True}
+        # methods configured through FALCON_CUSTOM_HTTP_METHODS (only in a process started with it): implemented by the
+        # resource, by its suffixed twin only, or not at all
+        if CUSTOM_M:
+            creqs = [[PATHS.index(p), m] for p in ('/a', '/zz') for m in CUSTOM_M + ['GET', 'POST', 'OPTIONS', UNKNOWN]]
+            for k, impl in enumerate(([CUSTOM_M[0], 'GET'], ['GET'], CUSTOM_M, [CUSTOM_M[-1]], ['POST', 'OPTIONS', CUSTOM_M[0]])):
+                for suffix in (None, 'x'):
+                    rest = sorted(m for m in ['GET', 'POST'] + CUSTOM_M if m not in impl)
+                    route = {'k': 'route', 't': TEMPLATES.index('/a'), 'suffix': suffix,
+                             'm': sorted(impl) if suffix is None else rest, 'mx': rest if suffix is None else sorted(impl)}
+                    yield {'sbs': True, 'ops': [{'k': 'sink', 'p': 0}, route], 'reqs': creqs, 'env_case': True}
         # sinks whose patterns use character classes, asked for ASCII and non-ASCII (percent-encoded UTF-8) paths
         wide = [[PATHS.index(p), m] for p in ('/w/caf%C3%A9', '/w/abc', '/w/%D0%BE%D1%82', '/n%D9%A3', '/n7', '/zz') for m in ('GET', 'POST')]
         for sbs in (True, False):
